@@ -63,7 +63,7 @@ fn field(rng: &mut Rng, dir: &std::path::Path, tag: &str, sqlite_receiver: bool)
     Field { w, g, admin0: a0, admin1: a1, n1, n2, removed: rm }
 }
 
-#[derive(Clone, Debug)]
+#[derive(Clone, Debug, PartialEq)]
 enum Content {
     Add,
     RemoveOther,
@@ -80,9 +80,12 @@ enum Content {
     ProposalAdd,
     ProposalGce,
     ProposalUpdate,
+    /// the sender's ordinary `self_update()` while another member's leave proposal sits in its queue:
+    /// OpenMLS sweeps the proposal into the commit by reference
+    SweepQueuedLeave,
 }
 
-const CONTENTS: [Content; 15] = [
+const CONTENTS: [Content; 16] = [
     Content::Add,
     Content::RemoveOther,
     Content::GceAdmins,
@@ -98,6 +101,7 @@ const CONTENTS: [Content; 15] = [
     Content::ProposalAdd,
     Content::ProposalGce,
     Content::ProposalUpdate,
+    Content::SweepQueuedLeave,
 ];
 
 /// Expected effect of an accepted message.
@@ -163,6 +167,7 @@ fn build(f: &mut Field, sender: usize, content: &Content, rng: &mut Rng) -> Opti
             // commit that takes the queue by reference
             return None; // handled by the planted-proposal family below
         }
+        Content::SweepQueuedLeave => return None, // built through the public API in family1
         Content::Empty => with_mdk!(m, x => adv::mls_commit(x, &gid, &adv::RawCommit::default(), false))?.0,
         Content::PureSelfUpdate => with_mdk!(m, x => adv::mls_commit(x, &gid, &adv::RawCommit { force_self_update: true, ..Default::default() }, false))?.0,
         Content::ProposalRemove => {
@@ -202,9 +207,33 @@ pub fn family1(prop: &str, i: u64, rng: &mut Rng, out: &mut Outcome, dir: &std::
             _ => (f.removed, "removed-member"),
         };
         let content = rng.pick(&CONTENTS).clone();
-        let Some((bytes, named)) = build(&mut f, sender, &content, rng) else { continue };
-        let ts = f.w.t;
-        let Some(ev) = with_mdk!(f.w.clients[sender].mdk, x => adv::wrap_as(x, &gid, &bytes, ts)) else { continue };
+        let (ev, named) = if content == Content::SweepQueuedLeave {
+            // another non-admin asks to leave; the sender and the other non-admin receivers queue the
+            // proposal (admins are not given it: they would auto-commit it); then the sender calls
+            // the ordinary self_update(), which carries the queued Remove by reference
+            // (an admin sender is family 2's business: it commits foreign proposals - known finding)
+            if sender == f.removed || !f.w.is_active(sender, g) || f.w.is_admin_now(sender, g) {
+                continue;
+            }
+            let leaver = if sender == f.n2 { f.n1 } else { f.n2 };
+            if !f.w.is_active(leaver, g) || f.w.is_admin_now(leaver, g) {
+                continue;
+            }
+            let Some(pidx) = f.w.act_leave(leaver, g) else { continue };
+            for c in [f.n1, f.n2, sender] {
+                if c != leaver && !f.w.is_admin_now(c, g) {
+                    f.w.deliver(c, pidx, OwnMode::Echo);
+                }
+            }
+            mdk_core::verif::set_created_at(Some(f.w.t));
+            let Ok(u) = with_mdk!(f.w.clients[sender].mdk, x => x.self_update(&gid)) else { continue };
+            (u.evolution_event, Named::default())
+        } else {
+            let Some((bytes, named)) = build(&mut f, sender, &content, rng) else { continue };
+            let ts = f.w.t;
+            let Some(ev) = with_mdk!(f.w.clients[sender].mdk, x => adv::wrap_as(x, &gid, &bytes, ts)) else { continue };
+            (ev, named)
+        };
         let idx = f.w.log.len();
         let at = f.w.clients[sender].state(g, &gid).unwrap();
         f.w.log.push(Pub { ev, kind: if named.is_proposal { PubKind::Proposal } else { PubKind::Commit }, author: sender, g, at, refs: vec![], what: format!("{role_name}:{content:?}"), rumor: None, mode: OwnMode::Echo, welcomes: vec![], adversarial: true });
